@@ -60,7 +60,12 @@ func c13Years(c *ctx) {
 				perturb(c, y)
 			}
 			row := obj{"d": []int{s.GetYear(), s.GetMonth(), s.GetDay()}, "x": b2i(extra)}
+			// the counters are per civil day: the time of day the object was built for must not matter
+			hmsOf := [][3]int{{12, 0, 0}, {23, 30, 0}, {0, 0, 0}, {6, 45, 10}, {23, 0, 0}}[k%5]
 			pp, _ := try(func() {
+				if s2, bad := safeSolar(s.GetYear(), s.GetMonth(), s.GetDay(), hmsOf[0], hmsOf[1], hmsOf[2]); !bad {
+					s = s2
+				}
 				l := s.GetLunar()
 				row["l"] = lun(l)[:3]
 				if sj := l.GetShuJiu(); sj != nil {
@@ -136,7 +141,12 @@ func c16Years(c *ctx) {
 		everyDay(y, func(s *calendar.Solar, extra bool) {
 			k++
 			row := obj{"d": []int{s.GetYear(), s.GetMonth(), s.GetDay()}, "x": b2i(extra)}
+			// the counters are per civil day: the time of day the object was built for must not matter
+			hmsOf := [][3]int{{12, 0, 0}, {23, 30, 0}, {0, 0, 0}, {6, 45, 10}, {23, 0, 0}}[k%5]
 			pp, _ := try(func() {
+				if s2, bad := safeSolar(s.GetYear(), s.GetMonth(), s.GetDay(), hmsOf[0], hmsOf[1], hmsOf[2]); !bad {
+					s = s2
+				}
 				l := s.GetLunar()
 				row["ly"] = l.GetYear()
 				row["ys"] = []int{l.GetYearNineStarBySect(1).GetIndex(), l.GetYearNineStarBySect(2).GetIndex(), l.GetYearNineStarBySect(3).GetIndex(), l.GetYearNineStar().GetIndex()}
@@ -265,6 +275,12 @@ func c17Years(c *ctx) {
 				return
 			}
 			l := s.GetLunar()
+			// the day classes depend on the lunar month and day, the day pillar and the day's term only: on every other
+			// day the chart convention of the same lunar object is switched first, which must change none of them
+			row["s1"] = b2i(k%2 == 0)
+			if k%2 == 0 {
+				try(func() { l.GetEightChar().SetSect(1) })
+			}
 			// round trips through the constructors
 			pr, _ := try(func() {
 				t := l.GetTao()
